@@ -2,8 +2,8 @@
 use crate::report::*;
 use std::process::Command;
 
-pub const CONSTRUCTS: [&str; 19] = [
-    "neg", "not", "binary-left", "binary-right", "call", "builtin", "list", "map", "else-chain", "index-chain", "parens",
+pub const CONSTRUCTS: [&str; 20] = [
+    "neg", "not", "binary-left", "binary-right", "call", "builtin", "list", "map", "else-chain", "else-chain-none", "index-chain", "parens",
     "flat-list", "flat-map", "flat-args", "long-string", "long-name", "unclosed-parens", "unclosed-brackets", "bad-tail",
 ];
 pub const OPS: [&str; 11] = ["parse", "parse-rule", "parse-rule-meta", "parse-again", "parse-rule-again", "drop", "display", "clone", "eq", "evaluate", "display-value"];
@@ -46,6 +46,10 @@ pub fn run(rep: &mut Report, thorough: bool) {
             }
             // (nested lists / maps die in `evaluate` before there is a value to print: that is the evaluate finding)
             if op == "display-value" && !matches!(c, "flat-list" | "flat-map" | "long-string") {
+                continue;
+            }
+            // (only its evaluation differs from else-chain)
+            if c == "else-chain-none" && !(op == "evaluate" || op == "parse" || op == "parse-rule") {
                 continue;
             }
             // texts that do not parse have no tree to operate on
